@@ -68,7 +68,7 @@ def job(g, op, tier):
                                 if vb.status == "holds":
                                     vb.how = "series path: | |q|^2 - 1 | <= 1e-14 by " + vb.how
                                     vd = vb
-            except T.PolyTooBig:
+            except (T.PolyTooBig, MemoryError):
                 vd = solver.Verdict("undecided", "budget")
             name = "%s/unit-norm%d" % (pk, si)
             if vd.status == "holds":
@@ -225,7 +225,7 @@ def job_ode(gn, kind, n, tier):
                 try:
                     with T.time_budget(15):
                         vd = solver.check_identity(T.nf(T.Sub(p.outs[i], q.outs[i])), pc=p.pc + q.pc, assumptions=asm, extra_rules=rules)
-                except T.PolyTooBig:
+                except (T.PolyTooBig, MemoryError):
                     vd = solver.Verdict("undecided", "budget")
                 if vd.status != "holds":
                     bad = (i, vd)
